@@ -87,6 +87,33 @@ CHECKS = {
          'names Parser() imports are observed with sys.addaudithook and must be the ones generate_tab_names yields.',
     note=TRUSTED + 'ply 3.11 table semantics (a state without entries is equivalent to an absent state).',
     design='DESIGN.md section 3, C17'),
+ 'C01': dict(
+    technique='round-trip runtime monitor around the real parse/pretty_print: canonical-tree equality, byte fixpoint, independent re-read of the output by the reference parser',
+    level='exploration',
+    text='For every accepted input and indent string: T1=parse(t), O1=pretty(T1), T2=parse(O1), O2=pretty(T2); canon(T1)==canon(T2), '
+         'O1==O2 bytewise, and refjs reads O1 as the same tree. Inputs: corpus, grammar derivations in 5 layouts, and systematic '
+         'products (23 binary operators x 43 left x 43 right operand classes, unary/postfix x operand, member/call/new x 19 primary kinds, '
+         '18 keywords x 17 following token classes, 27 statement kinds x 15 containers and all ordered pairs of statements).',
+    note=TRUSTED + 'refjs for the "any conforming ES5 parser" clause (only on inputs refjs reads as the same tree).',
+    design='DESIGN.md section 3, C01'),
+ 'C02': dict(
+    technique='round-trip runtime monitor around the real parse/minify_print with drop_semi off and on: tree equality modulo continuation stripping and stand-alone empty statements, reference re-read, token-sequence diagnosis, wrapper on the minimum-space layout handler',
+    level='exploration',
+    text='Same inputs as C01 (adjacency products included), both drop_semi settings: the minified output must parse (real parser and refjs) '
+         'to the original tree after removing string line continuations and stand-alone empty statements of statement lists (never a loop/if/'
+         'label body). A wrapper on layout_handler_space_minimum records which (last char class, first char class) pairs were presented '
+         'and whether a space was emitted; the drop_semi output may only have fewer semicolons.',
+    note=TRUSTED + 'refjs as second reader; the normalisation in vk/printing.py encodes exactly the two documented freedoms.',
+    design='DESIGN.md section 3, C02'),
+ 'C20': dict(
+    technique='output-line checker (structural depth of every token from the reference tree of the output) + invariant hooks on the live Indentator objects',
+    level='exploration',
+    text='Every line of pretty output that starts a token must begin with indent x structural depth (enclosing braces of blocks, function '
+         'bodies, non-empty object literals, switch blocks, +1 in case/default bodies) and nothing else; non-empty output ends with exactly one '
+         'newline; wrappers on Indentator.__init__/indent/dedent assert the level never goes negative and is zero when the call completes. '
+         '7 indent strings incl. empty and mixed; with and without comment capture.',
+    note=TRUSTED + 'refjs reading the output; lines starting with a comment or continuing a multi-line token are exempt.',
+    design='DESIGN.md section 3, C20'),
 }
 
 PENDING = 'monitor planned in DESIGN.md section 3 but not built yet in this round; no claim is made'
